@@ -802,6 +802,12 @@ struct Case {
         if (op == u"connect") {
             auto &c = cli(st);
             if (st.contains("jid") || st.contains("password")) configure(c, st);
+            if (st["ownConfig"].toBool()) {
+                // the application reconnects with the configuration the client holds by now (incl. credentials the library stored itself,
+                // e.g. a FAST token issued or rotated by the server)
+                c.config = c.client->configuration();
+                c.config.setHost(u"127.0.0.1"_s);
+            }
             c.config.setPort(c.listener->serverPort());
             c.expectConn = c.conns.size();
             c.sigMark = g_seq;
